@@ -195,12 +195,21 @@ def do_fft(it, fn, x, args, kwargs, node):
     transformed = "last2" if fn.endswith("2") else "all"
     inverse = fn.startswith("i")
     if not inverse:
+        if isinstance(x, Filtered) and x.axes is not None and x.gain is not None and x.transformed == transformed:
+            # a filtered map transformed again: FFT(IFFT(F * g)) = F * g -- the gains of chained filters multiply
+            s = Spectrum(x.src, x.gain, [], transformed, [const(0) for _ in x.axes], list(x.axes))
+            s.chained = True
+            return s
         if isinstance(x, (Spectrum, Filtered)):
             raise Unsupported("fft of a spectrum", node)
         if axes_of(x) is not None:
             raise Unsupported("fft of an index function", node)
         s = Spectrum(to_term(x), None, [], transformed)
         s.rank = getattr(x, "rank", None)
+        size_ = kwargs.get("s") if kwargs else None
+        if size_ is not None and not (is_pyconst(size_) and pyval(size_) is None):
+            s.padded = to_term(size_)  # fftn(x, s=...): the transform lives on another (padded / cropped) grid than x
+            it.record("fourier", "padded-transform", [x, size_], {}, node)
         return s
     if not isinstance(x, Spectrum):
         raise Unsupported(f"{fn} of a value that is not a tracked spectrum", node)
@@ -216,7 +225,10 @@ def do_fft(it, fn, x, args, kwargs, node):
         v = tm.equivalent(mk("mod", off, A.n), const(0), samplers=INT_SIZES, n=24, seed_tag="off0")
         if not v:
             it.record("fourier", "layout-offset", [], {}, node, {"axis": a, "offset": off, "witness": v.witness})
-    return Filtered(x.src, x.gain, x.axes, transformed)
+    f_ = Filtered(x.src, x.gain, x.axes, transformed)
+    if getattr(x, "padded", None) is not None:
+        f_.padded = x.padded
+    return f_
 
 
 def multiply(it, a, b, node):
